@@ -113,7 +113,7 @@ theorem loadOperand_stack {s s1 : St H} {v : VCell} {L : Nat} {b : Stack} (hag :
   | _ => cases h
 
 theorem storeOperand_stack {cl : CodeLaws ops} {s s1 : St H} {v : VCell} (b : Stack) (hi : cl.HInv s.heap)
-    (hnb : notBpOffset (ops.fetch s.heap s.ipL s.ipO) = true) (h : storeOperand ops s v = .ok s1) :
+    (hnb : dstOk (ops.fetch s.heap s.ipL s.ipO) = true) (h : storeOperand ops s v = .ok s1) :
     s1.stack = s.stack ∧ storeOperand ops { s with stack := b } v = .ok { s1 with stack := b } := by
   refine ⟨(storeOperand_ok (cl := cl) hi h hnb).1, ?_⟩
   unfold storeOperand at h ⊢
@@ -126,7 +126,7 @@ theorem storeOperand_stack {cl : CodeLaws ops} {s s1 : St H} {v : VCell} (b : St
   cases opnd with
   | acc => cases h; rfl
   | ptr p => cases h; rfl
-  | bpOffset off => simp [notBpOffset] at hnb
+  | bpOffset off => simp [dstOk] at hnb
   | globSlot n => cases h; rfl
   | lexEnvSlot n =>
     dsimp only at h ⊢
@@ -686,7 +686,7 @@ theorem step_stack {cl : CodeLaws ops} (ll : LiveLaws cl) {s r : St H} {K : List
     have e2 := loadOperand_ok hlo
     rw [bind_ok_eq (loadOperand_stack (s := { s with ipO := s.ipO + 1 }) hag hbl hlo)]
     subst e2
-    have hnb : notBpOffset (ops.fetch s.heap s.ipL (s.ipO + 1 + 1)) = true := by rw [ai.fetch]; exact c1
+    have hnb : dstOk (ops.fetch s.heap s.ipL (s.ipO + 1 + 1)) = true := by rw [ai.fetch]; exact c1
     obtain ⟨q1, q2⟩ := storeOperand_stack (cl := cl) (s := { s with ipO := s.ipO + 1 + 1 }) b ai.hw.inv hnb hso
     dsimp only
     rw [bind_ok_eq q2]
@@ -701,7 +701,7 @@ theorem step_stack {cl : CodeLaws ops} (ll : LiveLaws cl) {s r : St H} {K : List
     have e2 := (readOperand_ok hro).2
     rw [bind_ok_eq (readOperand_stack b hro)]
     subst e2
-    have hnb : notBpOffset (ops.fetch s.heap s.ipL (s.ipO + 1 + 1)) = true := by rw [ai.fetch]; exact c1
+    have hnb : dstOk (ops.fetch s.heap s.ipL (s.ipO + 1 + 1)) = true := by rw [ai.fetch]; exact c1
     obtain ⟨q1, q2⟩ := storeOperand_stack (cl := cl) (s := { s with ipO := s.ipO + 1 + 1 }) b ai.hw.inv hnb hso
     dsimp only
     rw [bind_ok_eq q2]
